@@ -148,6 +148,8 @@ SELECT = {
         ("dic", "Pair(a={v}.met(), b={v}.nvtx())", CALLABLE), ("dic", "NPair({v}.met(), b={v}.jets().Count())", CALLABLE), ("dic", "Pair({v}.nvtx(), {v}.met())", CALLABLE),
         ("dic", "KPair({v}.nvtx(), {v}.met(), k={v}.run)", CALLABLE), ("dic", "KPair({v}.met(), k={v}.run, b={v}.nvtx())", CALLABLE),
         ("tupseq", "({v}.jets(), {v}.met())", ANY), ("Event", "{v}", ANY),
+        # a record written with keys that compare equal and differ in type (python: one key, the last value), taken apart by a later stage
+        ("kdic", "{{1: {v}.met(), True: {v}.nvtx(), 2: {v}.met() * 2}}", ANY), ("kdic", "{{True: {v}.nvtx(), 1: {v}.met(), 2.0: {v}.met(), 2: {v}.nvtx()}}", ANY),
         # a nested lambda / comprehension re-using the name of the enclosing parameter, which is used again AFTER it (the classes of the
         # two variables declare the same method with other defaults / other parameters)
         ("num", "{v}.jets().Select(lambda {v}: {v}.trks().Count()).Count() + {v}.trks().Count()", ANY),
@@ -179,6 +181,7 @@ SELECT = {
     "num": [("num", "{v} * 2", ANY), ("num", "{v} + {k}", ANY), ("num", "{v} if {v} > {k} else 0", ANY), ("tup", "({v}, {v} * {k})", ANY), ("num", "{v} + CUT", CALLABLE), ("num", "scaled({v})", CALLABLE)],
     "tup": [("num", "{v}[0] + {v}[1]", ANY), ("num", "{v}[1]", ANY), ("tup", "({v}[1], {v}[0])", ANY), ("num", "{v}[0] * {k}", ANY)],
     "dic": [("num", "{v}.a * {v}.b", ANY), ("num", "{v}.a + {k}", ANY), ("num", "{v}['b']", ANY), ("tup", "({v}.b, {v}.a)", ANY)],
+    "kdic": [("num", "{v}[1] + {v}[2]", ANY), ("num", "{v}[1]", ANY), ("tup", "({v}[2], {v}[1])", ANY)],
     "tupseq": [("num", "{v}[0].Count() + {v}[1]", ANY), ("seqnum", "{v}[0].Select(lambda j: j.pt() + {v}[1])", ANY), ("seqJet", "{v}[0]", ANY),
                ("seqnum", "[j.pt() * {v}[1] for j in {v}[0] if j.pt() > {k}]", ANY)],
     "seqJet": [("num", "{v}.Count()", ANY), ("seqnum", "{v}.Select(lambda j: j.pt())", ANY), ("num", "len({v})", ANY), ("seqJet", "{v}.Where(lambda j: j.pt() > {k})", ANY),
